@@ -1213,10 +1213,10 @@ impl<T: El> MapWorld<T> {
                 }
             } else {
                 // lookup / removal / in-place update
-                let prehashed = (op.k == OpK::RawGet && op.arg != 0) || (op.k == OpK::RawChain && (op.arg & 3) != 0);
-                let max_h = if prehashed { 0 } else { 1 };
-                if st.hashes > max_h {
-                    vbail!("monitor", "{} computed {} hashes (a lookup/removal/update may hash only the queried key)", op, st.hashes);
+                // "hash only the queried key": every hash computed is of the argument key, and there are
+                // at most two of them (the bound the statement gives for a key being added)
+                if st.hashes > 2 || arg_hashes as u64 != st.hashes {
+                    vbail!("monitor", "{} computed {} hashes, {} of them on the queried key (a lookup/removal/update may hash only the queried key)", op, st.hashes, arg_hashes);
                 }
                 if st.allocs != 0 {
                     vbail!("monitor", "{} allocated {} tables", op, st.allocs);
